@@ -7,7 +7,9 @@ package main
 
 import (
 	"fmt"
+	"os"
 	"strings"
+	"sync"
 	"sync/atomic"
 )
 
@@ -262,10 +264,18 @@ func withHints(assump []*Term, goal *Term) ([]*Term, *Term) {
 			b := qi.q.Bound[0]
 			for _, p := range qi.pats {
 				for _, g := range work {
-					if p.ite != g.ite || !arraysMatch(p.arr, g.arr) {
-						continue
+					var v *Term
+					if p.app != "" || g.app != "" {
+						if p.app != g.app || p.argi >= len(g.args) {
+							continue
+						}
+						v = Sub(g.args[p.argi], p.rest)
+					} else {
+						if p.ite != g.ite || !arraysMatch(p.arr, g.arr) {
+							continue
+						}
+						v = Sub(g.idx, p.rest)
 					}
-					v := Sub(g.idx, p.rest)
 					if qi.done[v] || total >= 700 {
 						continue
 					}
@@ -280,12 +290,95 @@ func withHints(assump []*Term, goal *Term) ([]*Term, *Term) {
 				}
 			}
 		}
+		if os.Getenv("GVC_HINTSTAT") != "" {
+			fmt.Printf("  hints round %d: %d instances (total %d), %d quantifiers\n", round, len(added), total, len(qs))
+		}
 		work = collectSelects(added, seenSel, 200)
 	}
+	out = ematchSelectPatterns(out, n, goal)
 	return out, goal
 }
 
+// ematchSelectPatterns: a quantified assumption with the single-term pattern select(A, v) (A ground: the frame axioms
+// of havocs, heap and rows) is instantiated at every ground index at which A is read anywhere in the goal, in a ground
+// assumption or in an instance -- E-matching on its pattern, iterated to a fixpoint (bounded).
+func ematchSelectPatterns(out []*Term, n int, goal *Term) []*Term {
+	type pq struct {
+		guard, q *Term
+		done     map[*Term]bool
+	}
+	byArr := map[*Term][]*pq{}
+	for i := 0; i < n; i++ {
+		a := out[i]
+		var guard *Term
+		q := a
+		if a.Op == "=>" && a.Args[1].Op == "forall" {
+			guard, q = a.Args[0], a.Args[1]
+		}
+		if q.Op != "forall" || len(q.Bound) != 1 || len(q.Pats) != 1 || len(q.Pats[0]) != 1 {
+			continue
+		}
+		p := q.Pats[0][0]
+		if p.Op != "select" || p.Args[1] != q.Bound[0] || p.Args[0].hasBound {
+			continue
+		}
+		byArr[p.Args[0]] = append(byArr[p.Args[0]], &pq{guard, q, map[*Term]bool{}})
+	}
+	if len(byArr) == 0 {
+		return out
+	}
+	vis := map[*Term]bool{}
+	var found [][2]*Term
+	var w func(t *Term)
+	w = func(t *Term) {
+		if vis[t] || t.Op == "forall" || t.Op == "exists" {
+			return
+		}
+		vis[t] = true
+		if t.Op == "select" && !t.hasBound {
+			if _, ok := byArr[t.Args[0]]; ok {
+				found = append(found, [2]*Term{t.Args[0], t.Args[1]})
+			}
+		}
+		for _, a := range t.Args {
+			w(a)
+		}
+	}
+	w(goal)
+	for _, t := range out {
+		if !containsQuant(t) {
+			w(t)
+		}
+	}
+	total := 0
+	for round := 0; round < 12 && len(found) > 0 && total < 4000; round++ {
+		cur := found
+		found = nil
+		for _, f := range cur {
+			for _, p := range byArr[f[0]] {
+				if p.done[f[1]] || total >= 4000 {
+					continue
+				}
+				p.done[f[1]] = true
+				total++
+				inst := Substitute(p.q.Args[0], map[string]*Term{p.q.Bound[0].Name: f[1]})
+				if p.guard != nil {
+					inst = Implies(p.guard, inst)
+				}
+				out = append(out, inst)
+				w(inst)
+			}
+		}
+	}
+	if os.Getenv("GVC_HINTSTAT") != "" {
+		fmt.Printf("  ematch: %d pattern arrays, %d instances\n", len(byArr), total)
+	}
+	return out
+}
+
 type selPat struct {
+	app  string // uninterpreted function application f(.., v + rest, ..): matched against ground applications of f
+	argi int
 	ite  bool // the index is (ite c (v + rest) e): matched against the then-branch of ground ite indices (ring positions)
 	arr  *Term
 	rest *Term
@@ -338,7 +431,17 @@ func selectPatterns(body, v *Term) []selPat {
 		if t.Op == "select" && t.Args[1].Sort == IntSort && has(t.Args[1]) {
 			sawIte = false
 			if r, ok := lin(t.Args[1]); ok && !r.hasBound {
-				res = append(res, selPat{sawIte, t.Args[0], r})
+				res = append(res, selPat{ite: sawIte, arr: t.Args[0], rest: r})
+			}
+		}
+		if t.Op == "app" {
+			for i, a := range t.Args {
+				if a.Sort == IntSort && has(a) {
+					sawIte = false
+					if r, ok := lin(a); ok && !r.hasBound && !sawIte {
+						res = append(res, selPat{app: t.Name, argi: i, rest: r})
+					}
+				}
 			}
 		}
 		for _, a := range t.Args {
@@ -376,30 +479,140 @@ func arraysMatch(parr, garr *Term) bool {
 	if parr.Op == "select" && garr.Op == "select" && parr.Args[1] == garr.Args[1] {
 		return true
 	}
+	// a row read back through a chain of stores / ite versions: any stored row may be the one read
+	for _, c := range rowCandidates(garr, 0) {
+		if c == parr || (parr.Op == "select" && c.Op == "select" && parr.Args[1] == c.Args[1]) {
+			return true
+		}
+		// rows of a ghost map keyed by an integer (descriptor): the key is usually the same value read in
+		// two heap versions, i.e. two different terms
+		if parr.Op == "select" && c.Op == "select" && parr.Args[1].Sort == IntSort && c.Args[1].Sort == IntSort && sameBaseArray(parr.Args[0], c.Args[0]) {
+			return true
+		}
+	}
+	for _, c := range rowCandidates(parr, 0) {
+		if c == garr {
+			return true
+		}
+	}
 	return false
+}
+
+// sameBaseArray: both are versions (through store / ite) of the same initial array variable or havoc family.
+func sameBaseArray(a, b *Term) bool {
+	base := func(t *Term) string {
+		for i := 0; i < 12; i++ {
+			switch t.Op {
+			case "store":
+				t = t.Args[0]
+				continue
+			case "ite":
+				t = t.Args[2]
+				continue
+			}
+			break
+		}
+		n := t.Name
+		// strip version suffixes: G_sdata_0, loop1_sdata!90, h_Write_sdata!87 all denote the ghost sdata
+		if i := strings.LastIndex(n, "!"); i >= 0 {
+			n = n[:i]
+		}
+		n = strings.TrimSuffix(n, "_0")
+		if i := strings.LastIndex(n, "_"); i >= 0 {
+			n = n[i+1:]
+		}
+		return n + ":" + t.Sort.String()
+	}
+	return base(a) == base(b)
+}
+
+func rowCandidates(row *Term, depth int) []*Term {
+	if row.Op != "select" || depth > 6 {
+		return nil
+	}
+	var out []*Term
+	var walk func(a *Term, d int)
+	walk = func(a *Term, d int) {
+		if d > 6 {
+			return
+		}
+		switch a.Op {
+		case "store":
+			out = append(out, a.Args[2])
+			walk(a.Args[0], d+1)
+		case "ite":
+			walk(a.Args[1], d+1)
+			walk(a.Args[2], d+1)
+		default:
+			out = append(out, Select(a, row.Args[1]))
+		}
+	}
+	walk(row.Args[0], depth)
+	return out
 }
 
 type groundSel struct {
 	arr, idx *Term
 	ite      bool
+	app      string
+	args     []*Term
 }
 
+// mentionsSkolem: the term contains a skolem constant of the goal (memoised)
+var skMemo sync.Map
+
+func mentionsSkolem(t *Term) bool {
+	if v, ok := skMemo.Load(t); ok {
+		return v.(bool)
+	}
+	r := false
+	if t.Op == "var" && strings.HasPrefix(t.Name, "sk!") {
+		r = true
+	} else {
+		for _, a := range t.Args {
+			if mentionsSkolem(a) {
+				r = true
+				break
+			}
+		}
+	}
+	skMemo.Store(t, r)
+	return r
+}
+
+// collectSelects gathers ground Int-indexed selects and uninterpreted applications; those whose index depends on a
+// skolem constant of the goal come first (they are the ones a quantified fact has to be instantiated at), and only
+// the first limit are kept.
 func collectSelects(ts []*Term, seen map[[2]int]bool, limit int) []groundSel {
-	var out []groundSel
+	var first, rest []groundSel
 	vis := map[*Term]bool{}
+	add := func(g groundSel, key *Term) {
+		if mentionsSkolem(key) {
+			first = append(first, g)
+		} else {
+			rest = append(rest, g)
+		}
+	}
 	var w func(t *Term)
 	w = func(t *Term) {
 		if vis[t] || t.Op == "forall" || t.Op == "exists" {
 			return
 		}
 		vis[t] = true
-		if t.Op == "select" && t.Args[1].Sort == IntSort && !t.Args[1].hasBound && !t.Args[0].hasBound {
-			k := [2]int{t.Args[0].id, t.Args[1].id}
-			if !seen[k] && len(out) < limit {
-				seen[k] = true
-				out = append(out, groundSel{t.Args[0], t.Args[1], false})
-				if ix := stripIte(t.Args[1]); ix != t.Args[1] {
-					out = append(out, groundSel{t.Args[0], ix, true})
+		if len(first)+len(rest) < 4000 {
+			if t.Op == "select" && t.Args[1].Sort == IntSort && !t.Args[1].hasBound && !t.Args[0].hasBound {
+				k := [2]int{t.Args[0].id, t.Args[1].id}
+				if !seen[k] {
+					add(groundSel{arr: t.Args[0], idx: t.Args[1]}, t.Args[1])
+					if ix := stripIte(t.Args[1]); ix != t.Args[1] {
+						add(groundSel{arr: t.Args[0], idx: ix, ite: true}, t.Args[1])
+					}
+				}
+			}
+			if t.Op == "app" && !t.hasBound && len(t.Args) > 0 {
+				k := [2]int{-t.id, 0}
+				if !seen[k] {
+					add(groundSel{app: t.Name, args: t.Args}, t)
 				}
 			}
 		}
@@ -409,6 +622,16 @@ func collectSelects(ts []*Term, seen map[[2]int]bool, limit int) []groundSel {
 	}
 	for _, t := range ts {
 		w(t)
+	}
+	out := append(first, rest...)
+	if len(out) > limit {
+		out = out[:limit]
+	}
+	for _, g := range out {
+		if g.app != "" {
+			continue
+		}
+		seen[[2]int{g.arr.id, g.idx.id}] = true
 	}
 	return out
 }
@@ -487,7 +710,6 @@ func mentionsBound(t, v *Term) bool {
 	return false
 }
 
-
 // guardBounds returns the bound-free terms that bound variables are compared with in the guard of
 // an implication body (v < T, v <= T, T <= v ...).
 func guardBounds(body *Term) []*Term {
@@ -514,7 +736,6 @@ func guardBounds(body *Term) []*Term {
 	return res
 }
 
-
 // usesDirectSelect reports whether body contains select(A, v) with the bound variable itself as index.
 func usesDirectSelect(body, v *Term) bool {
 	found := false
@@ -537,11 +758,9 @@ func usesDirectSelect(body, v *Term) bool {
 	return found
 }
 
-
 func derivedFrom(t, sk *Term) bool {
 	return t == sk || (len(t.Args) == 2 && (t.Args[0] == sk || t.Args[1] == sk))
 }
-
 
 // sameRole: the skolem constant sk!<name>!q..!n stems from a bound variable with the same source name as b.
 func sameRole(sk, b *Term) bool {
